@@ -47,6 +47,11 @@ func CloneList(list List) List {
 	return clone
 }
 
+// CloneValue will clone the specified value. The same rules as for Clone apply.
+func CloneValue(v interface{}) interface{} {
+	return cloneValue(v)
+}
+
 func cloneValue(v interface{}) interface{} {
 	switch value := v.(type) {
 	case nil, int32, int64, float64, string, bool:
